@@ -275,6 +275,7 @@ def judge(case, impl_res, ans):
         return None
     exp = oracle_stored(case)
     got = ok['ids']
+    repeated = _store(case)[3] is not None and len(set(case['spike_ids'])) < len(case['spike_ids'])
     if len(got) != len(exp):
         return 'SPEC: %d rows returned for %d requested spikes' % (len(got), len(exp))
     # theorem getFeatures_shape: one row per requested spike, one column per requested channel / template
@@ -284,7 +285,9 @@ def judge(case, impl_res, ans):
         return 'SPEC: %s returned an array of shape %s, expected %s' % (op, ok['shape'], exp_shape)
     for i, (g, e, mm) in enumerate(zip(got, exp, m)):
         if e is not None:
-            if mm != e:
+            # a repeated spike id against a store WITH a row table is outside the hypotheses of getFeatures_spec (the
+            # model mirrors the code there, it is not the specification): only the property's own oracle judges it
+            if mm != e and not repeated:
                 return 'MACHINERY: Lean model differs from the python oracle on a stored spike'
             if g != e:
                 return 'SPEC: row %d (spike %d) differs from the densified stored row' % (i, case['spike_ids'][i])
@@ -329,6 +332,8 @@ def tally(rep, case, impl_res, ans):
         rep.count('store_dtype:%s' % ('float64 (values need double precision)' if case['spec'].get('feature_frac') else 'float32'))
         if case['spike_ids'] != sorted(case['spike_ids']):
             rep.count('unsorted_request')
+        if len(set(case['spike_ids'])) < len(case['spike_ids']):
+            rep.count('repeated_spike_id (store without row table)' if rows is None else 'repeated_spike_id (row table)')
         if rows is not None and set(case['spike_ids']) - set(rows):
             rep.count('requests_unstored_spike')
 
@@ -428,10 +433,14 @@ def gen(tier, rng):
             spec['pc_features'] = [[[v + FRAC for v in row] for row in blk] for blk in spec['pc_features']]
             spec['template_features'] = [[v + FRAC for v in row] for row in spec['template_features']]
         sids = rng.sample(range(ns), rng.randrange(0 if i % 9 == 0 else 1, min(ns, 6) + 1))
+        if sids and 'pc_feature_spike_ids' not in spec and i % 2:
+            sids = sids + [sids[0]]            # a repeated request is served at both positions when every spike is stored
         yield dict(p=PID, op='features', spec=spec, spike_ids=sids, npcs_pow2=True,
                    chans=rng.sample(range(nc), rng.randrange(1, nc + 1)), chkind=rng.pick(['list', 'array', 'uint32', 'int32', 'uint64']),
                    sidkind=rng.pick(['int64', 'int64', 'list', 'uint64', 'int32', 'uint32']))
         sids2 = rng.sample(range(ns), rng.randrange(1, min(ns, 6) + 1))
+        if 'template_feature_spike_ids' not in spec and i % 2:
+            sids2 = [sids2[-1]] + sids2
         yield dict(p=PID, op='tfeatures', spec=spec, spike_ids=sids2, sidkind=rng.pick(['int64', 'list', 'uint64', 'uint32']))
     # many spikes, few stored rows with large spike ids, requests in arbitrary order: the id lookups
     # (index in the row table) run in their sparse regime
